@@ -2547,6 +2547,24 @@ def generate(prop, run_seed, tier='quick', tolerate=frozenset()):
             ops[k:k] = [['disable'], ['add', e, i],
                         ['remove', e, cfg['insts'][i]], ['forget', i],
                         ['enable']]
+    if prop == 'C05' and crng.random() < .05 and 'ghost' not in cfg['faults']:
+        # the only component of an entity awaiting deletion is replaced, and
+        # the replaced component's on_remove runs a frame (terminal for the
+        # model: process() completes, that is all)
+        by_cls = {}
+        for i, c in enumerate(cfg['insts']):
+            d_ = cfg['classes'][c].get('deco') or {}
+            if ('on_remove' in d_.get('names', []) or 'on_remove' in d_.get(
+                    'maps', {})) and not cfg['classes'][c].get('ctrl') \
+                    and not cfg['classes'][c].get('late'):
+                by_cls.setdefault(c, []).append(i)
+        pairs = [v for v in by_cls.values() if len(v) >= 2]
+        if pairs:
+            i, j = crng.choice(pairs)[:2]
+            e = crng.choice([x for x in cfg['ids'] if isinstance(x, int)
+                             and x] or [1])
+            ops = [['create', e, [i]], ['delete', e], ['add', e, j]] + ops
+            scripts[f'dl:c{i}:on_remove:0'] = [['process_now', 1]]
     if prop == 'C05' and crng.random() < (.02 if tier == 'thorough'
                                           else .003):
         ops.insert(crng.randint(0, len(ops)),
